@@ -345,6 +345,26 @@ def run(pid, tier, seed, replay=None):
                 combo = [c_int(v) if isinstance(v, int) else c_slice(v.start, v.stop, v.step) for v in idx]
                 exprs.append(([rec for rec, _ in combo], tuple(o for _, o in combo)))
             add("self-reference", fin, ninf, set(), exprs, self_ref=fn)
+        # ---- well-founded dependencies BETWEEN the elements of one multi-element request ---------
+        # eval(0, n) looks up (1, n): inside series[:, 2] the later element (1, 2) is finished by the
+        # nested look-up before the request's own loop reaches it -- it must not be evaluated again
+        def cross_up(index):      # (0, n) -> (1, n)
+            return (1, index[1]) if index[0] == 0 else None
+
+        def cross_next(index):    # (i, n) -> (i, n + 1) for n < 3: later orders of the same slice
+            return (index[0], index[1] + 1) if index[1] < 3 else None
+
+        for fn, fin, ninf, idxs in (
+            (cross_up, (2,), 1, [(slice(None), 2), (slice(None), slice(None, 4)), ([0, 1], 3), (1, 2), (slice(None), 2)]),
+            (cross_up, (2,), 1, [(1, 1), (slice(None), 1), (slice(None), slice(None, 3)), (0, 2)]),
+            (cross_next, (2,), 1, [(0, slice(None, 4)), (slice(None), slice(None, 3)), (1, slice(None, 4)), (0, 1)]),
+        ):
+            exprs = []
+            for idx in idxs:
+                combo = [c_int(v) if isinstance(v, int) else c_list(v) if isinstance(v, list)
+                         else c_slice(v.start, v.stop, v.step) for v in idx]
+                exprs.append(([rec for rec, _ in combo], tuple(o for _, o in combo)))
+            add("cross-dependency", fin, ninf, set(), exprs, self_ref=fn)
 
     # ---- Mode C ------------------------------------------------------------------
     violations, known = [], []
